@@ -7,6 +7,7 @@ mod env;
 mod explore;
 mod props;
 mod report;
+mod scheme;
 mod sup;
 
 use serde_json::Value;
@@ -32,6 +33,7 @@ fn props() -> Vec<PropDef> {
     vec![
         p!("C01", "model_checking", c01),
         p!("C02", "fault_enumeration", c02),
+        p!("C03", "model_checking", c03),
         p!("C07", "fault_enumeration", c07),
         p!("C10", "fault_enumeration", c10),
     ]
